@@ -13,6 +13,12 @@ def showOutcome {α} (f : α → String) : Outcome α → String
   | .err k => s!"err:{k}"
   | .panic site => s!"panic:{site}"
 
+def parseParam? (t : String) : Option Param :=
+  match t.splitOn ":" with
+  | ["int", n] => n.toInt?.map Param.int
+  | ["str", h] => (fromHex? h).map Param.str
+  | _ => none
+
 /-- `id:sym` — data centre `id` configured with the (symbolic) address `sym` -/
 def parseDc? (t : String) : Option (Int × Bytes) :=
   match t.splitOn ":" with
@@ -48,6 +54,17 @@ def handle : List String → String
       showOutcome (fun (r : NativeErr × Decision) => showDecision r.2)
         (onRpcError (setDCList Gen.defaultDCList over) c m)
     | _, _, _ => "bad-op"
+  | ["c17.atoi", txt] =>
+    match fromHex? txt with
+    | some t => match atoi t with | some n => s!"int:{n}" | none => "err"
+    | none => "bad-op"
+  | ["c17.sprintf", fmt, operand] =>
+    match fromHex? fmt, parseParam? operand with
+    | some f, some a =>
+      match sprintf1 f a with
+      | some o => s!"out={toHexD o}"
+      | none => "format-not-modelled"
+    | _, _ => "bad-op"
   | _ => "bad-op"
 
 end Driver.C17
